@@ -57,7 +57,7 @@ func specInherits(k, parent []byte) bool {
 // CreateKey: only a decryptable master key whose contract is found and validates mints; the minted key inherits
 // master id, contract and signature, carries exactly the requested permissions minus the master bit; a failure
 // mints nothing.
-// @ verify (*Service).CreateKey pre=pre_Service post=post_CreateKey_fail,post_CreateKey_unexpired,post_CreateKey_master,post_CreateKey_contract,post_CreateKey_inherit,post_CreateKey_perms props=C11
+// @ verify (*Service).CreateKey pre=pre_Service post=post_CreateKey_fail,post_CreateKey_unexpired,post_CreateKey_master,post_CreateKey_contract,post_CreateKey_inherit,post_CreateKey_perms,post_minted_target props=C11
 func pre_Service(s *Service) bool {
 	return s != nil && s.cipher != nil && s.loader != nil && s.auth != nil
 }
@@ -102,7 +102,7 @@ func post_CreateKey_perms(s *Service, access uint8, res1 *errors.Error) bool {
 
 // ExtendKey: requires Authorize(channel, AllowExtend); the result has permissions parent & access & ^extend
 // (a subset of the parent, of the request, and never extendable again), same master id / contract / signature.
-// @ verify (*Service).ExtendKey pre=pre_Service post=post_ExtendKey props=C11
+// @ verify (*Service).ExtendKey pre=pre_Service post=post_ExtendKey,post_minted_target props=C11
 func post_ExtendKey(s *Service, access uint8, res0 *security.Channel, res1 *errors.Error) bool {
 	if res1 != nil {
 		return res0 == nil
@@ -186,4 +186,19 @@ func post_Request_expires(m *Request, res0 time.Time) bool {
 	return n == 0 && a == 1 && u == 2 && vs.TraceLen() == 3 && vs.TraceArg[time.Time](a, 0) == vs.TraceRet[time.Time](n, 0) &&
 		vs.TraceArg[time.Duration](a, 1) == time.Duration(m.TTL)*time.Second && vs.TraceArg[time.Time](u, 0) == vs.TraceRet[time.Time](a, 0) &&
 		res0 == vs.TraceRet[time.Time](u, 0)
+}
+
+// "targets exactly the requested channel": a key is handed to the cipher (i.e. minted) only after SetTarget accepted
+// the target for it - a target SetTarget refuses (more than 23 levels, no trailing '/') mints NOTHING: a key that
+// still carries its parent's target must never leave. SetTarget's own encoding is proved in internal/security
+// (C03); inside the two minting functions it is a recorded call that may rewrite the key's target fields.
+// @ assume (github.com/emitter-io/emitter/internal/security.Key).SetTarget iface for=CreateKey modifies=k
+// @ assume (github.com/emitter-io/emitter/internal/security.Key).SetTarget iface for=ExtendKey modifies=k
+func post_minted_target(s *Service) bool {
+	e := vs.TraceFind("EncryptKey")
+	if e < 0 {
+		return true
+	}
+	t := vs.TraceFind("Key).SetTarget")
+	return t >= 0 && t < e && vs.TraceCount("Key).SetTarget") == 1 && vs.TraceRet[error](t, 0) == nil
 }
